@@ -71,12 +71,12 @@ func replayGraph(file string, mk func() sut, maxMismatch int, wo ...walkOpts) (m
 	var mism []gMismatch
 	nEdges, nStates := 0, 0
 	var samples []any
-	type adjEdge struct {
+	type adjEdgeF struct {
 		to       string
 		act, out json.RawMessage
 		full     map[string]json.RawMessage
 	}
-	adj := map[string][]adjEdge{}
+	adj := map[string][]adjEdgeF{}
 	initKey := ""
 	unwind := func(n *pathNode) []json.RawMessage {
 		res := make([]json.RawMessage, n.depth)
@@ -94,7 +94,7 @@ func replayGraph(file string, mk func() sut, maxMismatch int, wo ...walkOpts) (m
 		var full map[string]json.RawMessage
 		json.Unmarshal(line, &full)
 		if len(wo) > 0 {
-			adj[e.From] = append(adj[e.From], adjEdge{e.To, e.Act, e.Out, full})
+			adj[e.From] = append(adj[e.From], adjEdgeF{e.To, e.Act, e.Out, full})
 		}
 		if first {
 			initKey = e.From
@@ -181,4 +181,33 @@ func replayGraph(file string, mk func() sut, maxMismatch int, wo ...walkOpts) (m
 		}
 	}
 	return map[string]any{"edges": nEdges, "states": nStates, "mismatches": mism, "samples": samples, "walks": nWalks, "walk_steps": nWalkSteps}, nil
+}
+
+type adjEdge struct {
+	to       string
+	act, out json.RawMessage
+}
+
+// loadAdj loads a TLC edges file as adjacency lists keyed by source state.
+func loadAdj(file string) (map[string][]adjEdge, string, error) {
+	f, err := os.Open(file)
+	if err != nil {
+		return nil, "", err
+	}
+	defer f.Close()
+	sc := bufio.NewScanner(f)
+	sc.Buffer(make([]byte, 1<<20), 1<<28)
+	adj := map[string][]adjEdge{}
+	initKey := ""
+	for sc.Scan() {
+		var e gEdge
+		if err := json.Unmarshal(sc.Bytes(), &e); err != nil {
+			return nil, "", err
+		}
+		if initKey == "" {
+			initKey = e.From
+		}
+		adj[e.From] = append(adj[e.From], adjEdge{e.To, e.Act, e.Out})
+	}
+	return adj, initKey, nil
 }
